@@ -517,6 +517,21 @@ theorem C08_goodbyes_run_refuted_without_snapshot : ¬ C08_goodbyes_run id false
     have := h exReg exSvc 1 1000 [.mutate 1 { exSvc with name := "svc-2._http._tcp.local." }] [] [] h3 out (by decide) (by decide) (by decide) hx
     omega
 
+/-- the hypotheses of `C08_goodbyes_run_partial` / `C08_close_goodbyes_partial` are met by ordinary traffic: queue insertions, queue timers,
+other objects' tasks and this object's announcement task are quiet for object 1 and are no shutdown blocks; `_close` and a step of the object's
+own goodbye task are not -/
+example : (Block.enqueue true 1100 60 []).quietFor 1 = true ∧ (Block.ready true 1200).quietFor 1 = true ∧
+    (Block.task 2 (some 0) true 5).quietFor 1 = true ∧ (Block.task 1 none true 5).quietFor 1 = true ∧
+    (Block.unregisterAll 7).quietFor 1 = true ∧ Block.close.quietFor 1 = false ∧ (Block.task 1 (some 0) true 5).quietFor 1 = false ∧
+    (Block.ready true 1200).isShutdown = false ∧ (Block.unregister exSvc 1 3).isShutdown = false ∧ Block.close.isShutdown = true := by
+  decide
+
+/-- `C08_goodbyes_run_partial` is not vacuous: unregister, queue timers firing before and between the steps, the three steps -/
+example : (exReg.run id [.unregister exSvc 1 1000, .ready true 1000, .task 1 (some 0) true 1000, .ready false 1100,
+      .task 1 (some 0) true 1125, .ready true 1200, .task 1 (some 0) true 1250]).map
+    (fun r => r.2.map (fun p => decide (p = goodbyePkt exSvc false))) = some [true, true, true] := by
+  decide
+
 /-- a service under another name on the same host keeps the address records out of the goodbye -/
 example : hostShared id [⟨{ exSvc with name := "other._http._tcp.local." }, 2⟩] exSvc = true := by decide
 
